@@ -53,6 +53,9 @@ class SymLines:
                 out.append(ex.raise_(IndexError, f2))
         return out
 
+    def __pyvc_elem__(self, k):
+        return SStr(z3.Select(self.arr, V.z3int(k)))
+
     def __pyvc_getslice__(self, ex, sl, st, node):
         if sl.lo is None and sl.hi is None and sl.step is None:
             return [Val(SymLines(self.n, self.arr), st)]  # a copy: a new list object with the same elements
